@@ -44,6 +44,16 @@ def specAttempt (now : Int) (F : List Int) (failed : Bool) : List Int × Out :=
   else if failed then (F ++ [now], .delayed (getDelay (ageCount now F)))
   else (F, .passed)
 
+/-- `n` failures at once (all let through before any was recorded): the statement counts every one of
+them — afterwards the history has `n` more records, a further attempt is refused iff ten records lie
+within thirty minutes, and the i-th delay (ascending) is the delay for `i` more failures than before. -/
+def specPar (now : Int) (F : List Int) (n : Nat) : List Int × Out :=
+  if specRefused now F then (F, .rest 0 (ageCount now F) true [])
+  else
+    let F' := F ++ List.replicate n now
+    (F', .rest n (ageCount now F') (specRefused now F')
+            ((List.range n).map fun i => getDelay (ageCount now F + i)))
+
 def specStep (h : Hist) : Op → Hist × Out
   | .attempt now addr a failed =>
     let k := throttleKey addr
@@ -53,6 +63,10 @@ def specStep (h : Hist) : Op → Hist × Out
   -- the two-phase ops are outside the sequential spec (see Props/C17: concurrency)
   | .checkOnly _ _ _ => (h, .none)
   | .throttleOnly _ _ _ => (h, .none)
+  | .par now addr a n =>
+    let k := throttleKey addr
+    let (F, o) := specPar now (h k a) n
+    (h.set k a F, o)
 
 def specRun (h : Hist) : List Op → Hist × List Out
   | [] => (h, [])
@@ -67,10 +81,14 @@ def Op.time : Op → Int
   | .cleanup now => now
   | .checkOnly now _ _ => now
   | .throttleOnly now _ _ => now
+  | .par now _ _ _ => now
 
+/-- Ops the sequential reading of the statement applies to.  `par` is one of them because its outcome
+does not depend on the interleaving (`C17_concurrent_failures_all_recorded`). -/
 def Op.atomic : Op → Bool
   | .attempt .. => true
   | .cleanup .. => true
+  | .par .. => true
   | _ => false
 
 /-- A history with a monotone clock starting at `t0`, made of whole attempts and cleanups. -/
@@ -121,12 +139,38 @@ def Judge.observe (j : Judge) (op : Op) (implOut : Out) : Judge × String :=
       | .refused => (j', "violated:refused-with-fewer-than-10-failures-in-30min")
       | .passed => (j', if failed then "violated:failure-not-delayed" else "ok")
       | .none => (j', "violated:no-outcome")
+      | .rest .. => (j', "violated:no-outcome")
       | .delayed d =>
         if !failed then (j', "violated:success-delayed") else
         if d > stmtMaxDelay then (j', "violated:delay-exceeds-25s") else
         let bad := j'.delays.any fun (c', d') => (c' ≤ cnt && d' > d) || (cnt ≤ c' && d > d')
         ({ j' with delays := (cnt, d) :: j'.delays },
           if bad then "violated:delay-decreases-with-more-failures" else "ok")
+  | .par now addr a n =>
+    let k := throttleKey addr
+    let F := j.hist k a
+    let cnt := ageCount now F
+    match implOut with
+    | .rest p recs blk ds =>
+      if specRefused now F then
+        (j, if p ≠ 0 || !blk then "violated:not-refused-with-10-failures-in-30min" else "ok")
+      else
+        let F' := F ++ List.replicate n now
+        let j' := { j with hist := j.hist.set k a F' }
+        if p ≠ n then (j', "violated:refused-with-fewer-than-10-failures-in-30min") else
+        if recs < ageCount now F' then (j', "violated:fewer-records-than-failures") else
+        if recs > ageCount now F' then (j', "violated:more-records-than-failures") else
+        if specRefused now F' && !blk then (j', "violated:not-refused-with-10-failures-in-30min") else
+        if !specRefused now F' && blk then (j', "violated:refused-with-fewer-than-10-failures-in-30min") else
+        if ds.length ≠ n then (j', "violated:failure-not-delayed") else
+        if ds.any (· > stmtMaxDelay) then (j', "violated:delay-exceeds-25s") else
+        -- the i-th smallest delay belongs to the failure that found `cnt + i` earlier ones
+        let pairs := (List.range n).zip ds |>.map fun (i, d) => (cnt + i, d)
+        let all := pairs ++ j'.delays
+        let bad := pairs.any fun (c, d) => all.any fun (c', d') => (c' ≤ c && d' > d) || (c ≤ c' && d > d')
+        ({ j' with delays := all },
+          if bad then "violated:delay-decreases-with-more-failures" else "ok")
+    | _ => (j, "violated:no-outcome")
   | _ => (j, "ok")
 
 end SigModel.Throttle
